@@ -74,20 +74,30 @@ pub fn alloc_grid<const V: u32>(d: &mut Driver<V>, p: &Params, pass: u64) {
 /// C09: allocate up to a fraction of the heap, drop everything, collect exhaustively; repeat.
 pub fn cycles<const V: u32>(d: &mut Driver<V>, p: &Params, ncycles: u64, heap_mb: usize) {
     let m = mmtk::<V>();
-    crate::QUIET_ALLOC.store(true, std::sync::atomic::Ordering::Relaxed);
-    WALK_AT_RESUME.store(false, std::sync::atomic::Ordering::Relaxed);
+    if !flag("loud") {
+        crate::QUIET_ALLOC.store(true, std::sync::atomic::Ordering::Relaxed);
+        WALK_AT_RESUME.store(false, std::sync::atomic::Ordering::Relaxed);
+    }
+    let page_per_object = arg_or("plan", "") == "PageProtect";
     let one_survivor = flag("survivor");
     for c in 0..ncycles {
         reset(2000 + c);
         if one_survivor && c > 0 {
             // keep one object alive across all cycles (exercises mark-state wrap-around)
         }
-        let frac_num = if c % 2 == 0 { 1 } else { 2 }; // 1/4 or 1/2 of the heap
-        let budget = heap_mb * (1 << 20) * frac_num / 4;
-        let mix = c % 4;
+        // Every allocated object stays reachable until the drop (a chain through field 0 hanging
+        // off root 0), so collections in the middle of a cycle have survivors of every size class.
+        let eighths = if c % 2 == 0 { 2 } else { 3 }; // 1/4 or 3/8 of the heap live at the peak
+        let budget = heap_mb * (1 << 20) * eighths / 8;
+        let mix = c % 8;
+        // single-size cycles rotate through representative sizes of the size-class structures
+        const SINGLE: [usize; 10] = [64, 4096, 60000, 1024, 16384, 256, 8184, 32760, 65528, 24];
+        let single = SINGLE[((c / 8) % SINGLE.len() as u64) as usize];
+        let mid_gc = d.rng.chance(1, 2) && !flag("nomidgc");
         let mut allocated = 0usize;
         let mut failed = 0u64;
         let mut count = 0u64;
+        let mut mid_done = false;
         while allocated < budget {
             safepoint();
             let size = match mix {
@@ -100,21 +110,36 @@ pub fn cycles<const V: u32>(d: &mut Driver<V>, p: &Params, ncycles: u64, heap_mb
                         8 * d.rng.range(3, 100) as usize
                     }
                 }
-                _ => 8 * d.rng.range(1000, 12000) as usize,
+                3 => 8 * d.rng.range(1000, 12000) as usize,
+                _ => single.max(32),
             };
             let sem = *d.rng.pick(&p.sems);
             let sem = if matches!(sem, 1 | 3 | 4 | 5) { 0 } else { sem }; // never-collected spaces cannot be reclaimed
             let sem = if sem == 6 && size > 4096 { 0 } else { sem }; // non-moving space: small objects only
-            let slot = (count % p.nslots as u64) as usize;
-            let r = d.new_object(0, slot, sem, size, 0, 8, 0, KIND_PLAIN);
+            let sem = if sem == 2 && size < 8192 { 0 } else { sem }; // a page per small object would fill the heap
+            let prev = Driver::<V>::root_get(0, 0);
+            let r = d.new_object(0, 1, sem, size, 1, 8, 0, KIND_PLAIN);
             if r == 0 {
                 failed += 1;
                 if failed > 3 {
                     break;
                 }
+                continue;
             }
-            allocated += size;
+            if prev != 0 {
+                Driver::<V>::root_set(0, 2, prev);
+                d.write_field(0, 1, 0, prev);
+                Driver::<V>::root_set(0, 2, 0);
+            }
+            Driver::<V>::root_set(0, 0, r);
+            Driver::<V>::root_set(0, 1, 0);
+            allocated += if page_per_object { size.max(4096) } else { size };
             count += 1;
+            if mid_gc && !mid_done && allocated > budget / 2 {
+                // a collection while everything is still live
+                mid_done = true;
+                d.gc(0, c % 3 == 0);
+            }
         }
         reset(3000 + c);
         d.gc(0, true);
